@@ -15,6 +15,7 @@ import (
 	"verif/internal/cat"
 	"verif/internal/gen"
 	"verif/internal/harness"
+	"verif/internal/hostile"
 	"verif/internal/spec"
 )
 
@@ -357,6 +358,19 @@ func genFor(t *rapid.T, e *entry) parseCase {
 			}
 			fixLen(e.Framing, d)
 			c.Data, c.Tail, c.Src = d, f[k:], "truncation-fc-swap"
+		}
+	case mode == 7 && rapid.Bool().Draw(t, "foreign"):
+		// input in the shape of another framing or protocol: a Modbus ASCII frame (':' hex digits CR LF) of a few bytes, or a token other
+		// protocols open with, followed by random bytes
+		if rapid.Bool().Draw(t, "ascii") {
+			d := hostile.ASCIIFrame(gen.Payload(t, "ascii_body", rapid.IntRange(0, 9).Draw(t, "ascii_n")))
+			if rapid.IntRange(0, 3).Draw(t, "ascii_odd") == 0 && len(d) > 3 {
+				d = append(d[:len(d)-3], '\r', '\n') // odd number of hex digits
+			}
+			c.Data, c.Src = d, "ascii-frame"
+		} else {
+			tok := rapid.SampledFrom(hostile.Tokens).Draw(t, "token")
+			c.Data, c.Src = append(append([]byte(nil), tok...), gen.Payload(t, "after_token", rapid.IntRange(0, 12).Draw(t, "after_n"))...), "foreign-token"
 		}
 	default: // random string with plausible header
 		n := rapid.IntRange(0, 300).Draw(t, "n")
